@@ -86,6 +86,11 @@ def replay_frame(msgs, t, rst, cuts, signature):
                 if got != m:
                     outcome.append("wrong-message")
                     return
+                if rd.pos != bounds[j + 1]:
+                    # the reader pulled bytes of the following message out of the kernel (every byte it asked for was handed over in
+                    # lock-step, so rd.pos is exactly what it has consumed)
+                    outcome.append("stream-position-off")
+                    return
             outcome.append("ok")
         finally:
             pass
